@@ -14,6 +14,8 @@ import (
 // puritySession: one live Parser, up to 8 calls interleaving MergeDocument,
 // Documents and the output methods over documents that use $merge, $replace,
 // $repeat, interpolation, $env, $output.
+var sessDebug func(string)
+
 func puritySession(g *gen.G, idx int) Sess {
 	var lines [][]byte
 	var meta []any
@@ -26,6 +28,9 @@ func puritySession(g *gen.G, idx int) Sess {
 		merge := func(id string, parents []string, data any) {
 			t := tv.FromGo(data)
 			meta = append(meta, map[string]any{"call": "MergeDocument", "id": id, "data": t})
+			if sessDebug != nil {
+				sessDebug(string(J(meta[len(meta)-1])))
+			}
 			o := s.MergeDocument(id, parents, t)
 			lines = append(lines, J(map[string]any{"ev": "MergeDocument",
 				"patch": map[string]any{"id": id, "parents": parents, "data": t},
@@ -74,12 +79,18 @@ func puritySession(g *gen.G, idx int) Sess {
 					delete(m, "$match")
 					delete(m, "$parent")
 				}
+				// in-process evaluation: keep $repeat counts small ($repeat: 2^31 is
+				// 2^31 documents, not a purity question)
+				data = tame(data)
 				merge(fmt.Sprintf("s%d.c%d", idx, c), base, data)
 			case r < 5:
 				meta = append(meta, map[string]any{"call": "Documents"})
 				lines = append(lines, J(map[string]any{"ev": "Documents", "docs": s.Docs()}))
 			default:
 				format := g.Pick([]string{"json", "yaml", "json-pretty", "docs"})
+				if sessDebug != nil {
+					sessDebug("output " + format)
+				}
 				var o real.Outcome
 				var outs []any
 				sha := ""
@@ -125,6 +136,9 @@ func C19(r *Run) {
 	for i := range sessions {
 		sessions[i] = puritySession(g, i)
 		distinct[string(J(sessions[i].Meta))] = true
+		if i%2000 == 1999 {
+			r.Logf("  %d sessions generated", i+1)
+		}
 	}
 	r.Logf("generated %d sessions", n)
 	res := r.Validate("C19", sessions, nil)
